@@ -548,7 +548,7 @@ def run_model(T, text, tag):
         if t[0] == "M":
             M[int(t[1])] = (int(t[2]), int(t[3]), t[4], int(t[5]))
         elif t[0] == "S":
-            S[int(t[1])] = (t[2], t[3])
+            S[int(t[1])] = (t[2].split("=", 1)[1], t[3].split("=", 1)[1])
         elif t[0] == "V":
             V[int(t[1])] = int(t[2])
     return head, M, S, V
@@ -683,6 +683,18 @@ def signature(case, res):
     if has_lone and has_imgpal and (("status" in kinds and "Failed to read palette" in txt) or
                                     ("content" in kinds and "lonepal" in txt)):
         return "lone-palette-with-image-palette"
+    # record variables sharing a named unlimited dimension, hrepack refusing the dimension name
+    unl_dim0, cur = {}, None
+    for l in case["script"]:
+        t = l.split()
+        if t[0] == "sds":
+            cur = t[1] if t[3] == "1" else None
+        elif t[0] in ("gr", "vs", "vg"):
+            cur = None
+        elif t[0] == "dimname" and cur is not None and t[1] == "0":
+            unl_dim0.setdefault(t[2], []).append(cur)
+    if any(len(v) > 1 for v in unl_dim0.values()) and "status" in kinds and "Failed to set dimension name 0" in txt:
+        return "compressed-record-variables-sharing-named-unlimited-dimension"
     return None
 
 
@@ -793,7 +805,7 @@ def run(ctx):
             c["id"] = "corpus-" + fn[:-5]
             cases.append(c)
             ncorpus += 1
-    n = 70 if ctx.tier == "quick" else 1500
+    n = 400 if ctx.tier == "quick" else 6000
     cases += [gen_case(r, "g%d" % i) for i in range(n)]
     stats = {"cases": len(cases), "corpus_cases": ncorpus, "generator_errors": 0, "passes": 0, "status": {},
              "objects_sds_gr": 0, "known_finding_cases": 0, "option_modes": {}, "requested_comp": {}, "option_file_runs": 0}
@@ -862,24 +874,111 @@ def run(ctx):
     shutil.rmtree(T.wd, ignore_errors=True)
 
 
+FN_NAMES = ["A", "B", "g/C", "*", "AB", "A"]
+FN_COMP = ["RLE", "NONE", "HUFF 1", "HUFF 4", "GZIP 6", "GZIP 0", "GZIP 9", "GZIP 10", "HUFF 0", "HUFF", "GZIP", "RLE 1",
+           "NONE 3", "FOO", "JPEG 50", "JPEG 101", "SZIP 8,NN", "GZIP x", "GZIP 1 2", " 5", "", "GZIP 0012", "GZIP ", "rle"]
+FN_CHUNK = ["2", "2x3", "10x10x10", "NONE", "0", "2x0", "3x", "x3", "12N", "NONEx2", "2xNONE", "NxO", "", "1x2x3x4", "7x7",
+            "5", "2 3", "2,3", "999999999", "4x5"]
+FN_NUM = ["0", "10", "1024", "12a", "", "-5", "000100"]
+
+
+def gen_fn_line(r):
+    opts = []
+    for _ in range(r.choice([0, 1, 1, 2, 2, 3, 4, 5])):
+        kind = r.choice(["t", "t", "c", "c", "m"])
+        if kind == "m":
+            opts.append(("m", r.choice(FN_NUM)))
+            continue
+        names = ",".join(r.choice(FN_NAMES) for _ in range(r.choice([1, 1, 1, 2, 3])))
+        if r.random() < 0.05:
+            names = r.choice(["", "A,", ",A", "A:B"])
+        tail = r.choice(FN_COMP if kind == "t" else FN_CHUNK)
+        sep = ":" if r.random() < 0.97 else ""
+        opts.append((kind, names + sep + tail))
+    qs = []
+    for _ in range(r.choice([1, 2, 3])):
+        rank = r.choice([1, 2, 2, 3])
+        flags = r.choice([0, 0, 1, 3])
+        lens = ",".join(str(r.choice([1, 2, 4, 9])) for _ in range(rank)) if flags else "-"
+        comp = r.choice([0, 0, 1, 3, 4, 2])
+        qs.append("%d %s %d %s %d %d %d %d" % (rank, hx(r.choice(["A", "B", "g/C", "D", "AB"])), flags, lens,
+                                                 comp if flags == 3 else r.choice([0, 7]), r.choice([0, 1, 6]), comp,
+                                                 r.choice([0, 1, 6])))
+    return "O %d %s Q %d %s" % (len(opts), " ".join("%s %s" % (k, hx(v)) for k, v in opts), len(qs), " ".join(qs)), opts
+
+
+def split_fn_out(lines):
+    out, cur = [], []
+    for l in lines:
+        if not l.startswith("R "):
+            continue
+        cur.append(l)
+        if l == "R end":
+            out.append(cur)
+            cur = []
+    return out
+
+
 def fn_corr(ctx, T):
-    """function-level R-vs-M correspondence (parse_comp / parse_chunk / hrepack_addcomp / hrepack_addchunk /
-    options_get_info called directly): see harness/drive_repack_fn.c"""
-    try:
-        import importlib.util
-        p = os.path.join(vc.VERIF, "checks", "C18_fn.py")
-        if not os.path.exists(p):
-            return
-        spec = importlib.util.spec_from_file_location("c18_fn", p)
-        mod = importlib.util.module_from_spec(spec)
-        spec.loader.exec_module(mod)
-        mod.run(ctx, T)
-    except vc.BuildError:
-        raise
+    """function-level R-vs-M correspondence: parse_comp / parse_chunk / parse_number / hrepack_addcomp /
+    hrepack_addchunk / print_options / options_get_info called directly (harness/drive_repack_fn.c includes the
+    tool's sources) against the extracted model, exact comparison of every result"""
+    r = ctx.rng
+    exe = ctx.harness("drive_repack_fn", ["drive_repack_fn.c"])
+    n = 1500 if ctx.tier == "quick" else 40000
+    gen = [gen_fn_line(r) for _ in range(n)]
+    p = os.path.join(T.wd, "fn.in")
+    open(p, "w").write("\n".join(g[0] for g in gen) + "\n")
+    rc, mout = vc.run_lines(T.model, p, timeout=600, args=["fn"])
+    Mres = split_fn_out(mout)
+    if rc != 0 or len(Mres) != len(gen):
+        raise vc.BuildError("model driver (fn mode) failed rc=%d (%d results for %d lines)" % (rc, len(Mres), len(gen)))
+    keep = [i for i in range(len(gen)) if Mres[i][0] != "R build=undef"]
+    open(p, "w").write("\n".join(gen[i][0] for i in keep) + "\n")
+    rc, rout = vc.run_lines(exe, p, timeout=600)
+    Rres = split_fn_out(rout)
+    stats = {"lines": len(gen), "outside_model_domain": len(gen) - len(keep), "build_ok": 0, "build_err": 0,
+             "inconsistent": 0, "queries": 0, "query_fail": 0, "mismatches": 0, "harness_rc": rc}
+    bad = None
+    for j, i in enumerate(keep):
+        m = Mres[i]
+        rr = Rres[j] if j < len(Rres) else ["<missing: harness died>"]
+        stats["build_ok" if m[0].startswith("R build=ok") else "build_err"] += 1
+        stats["inconsistent"] += sum(1 for l in m if " consistent=0 " in l)
+        stats["queries"] += sum(1 for l in m if l.startswith("R q "))
+        stats["query_fail"] += sum(1 for l in m if l == "R q -1")
+        ctx.case(("fn", gen[i][0]), m[0].startswith("R build=ok"))
+        if rr != m:
+            stats["mismatches"] += 1
+            if bad is None:
+                bad = (gen[i], rr, m)
+    ctx.corr("option functions~RepackModel (function level)", **stats)
+    if bad is not None:
+        g, rr, m = bad
+        k = vc.first_diff(rr, m)
+        txt = ["# C18 function-level correspondence: the real option functions (R) and the Coq model (M) differ",
+               "# options in order: " + " ; ".join("-%s '%s'" % o for o in g[1]),
+               "# first differing line:", "#   R: " + (rr[k] if k is not None and k < len(rr) else "<none>"),
+               "#   M: " + (m[k] if k is not None and k < len(m) else "<none>"),
+               "fnline " + g[0]]
+        ctx.violation("correspondence parse/table/options_get_info ~ RepackModel broken: " + " ; ".join(
+            "-%s '%s'" % o for o in g[1])[:200], "\n".join(txt), found=False, suffix="case")
 
 
 def replay(ctx, path):
     T = Tools(ctx)
+    fl = [l[7:] for l in open(path).read().splitlines() if l.startswith("fnline ")]
+    if fl:
+        exe = ctx.harness("drive_repack_fn", ["drive_repack_fn.c"])
+        p = os.path.join(T.wd, "fn.in")
+        open(p, "w").write("\n".join(fl) + "\n")
+        R = [l for l in vc.run_lines(exe, p)[1] if l.startswith("R ")]
+        M = [l for l in vc.run_lines(T.model, p, args=["fn"])[1] if l.startswith("R ")]
+        for i in range(max(len(R), len(M))):
+            a, b = (R[i] if i < len(R) else "-"), (M[i] if i < len(M) else "-")
+            print("%s R: %-60s M: %s" % ("  " if a == b else "!!", a, b))
+        shutil.rmtree(T.wd, ignore_errors=True)
+        return 0 if R == M else 1
     c = load_case(path)
     c["keep"] = True
     c["id"] = "replay"
